@@ -128,6 +128,109 @@ pub fn check_many_rules(k: usize, variant: u64) -> Result<usize, String> {
     Ok(days.len())
 }
 
+
+/// Wide selector lists: ONE rule whose year selector (or time selector) holds `n` disjoint ranges, so
+/// that a single dimension of the normalization's paving has 2n cuts, followed by a second rule
+/// whose range starts in the middle of one of them / on a cut / spans several / lies in a gap.
+/// `variant` < 108: position (3) x shape of the second range (4) x its hours (3) x separator (3);
+/// variant >= 108 (12 more): the same idea along the time dimension (spans of 2 minutes every 4).
+pub const WIDE_VARIANTS: u64 = 120;
+
+pub fn wide_list_text(n: usize, variant: u64) -> (String, Vec<chrono::NaiveDate>) {
+    use chrono::{Datelike, Duration, NaiveDate, Weekday};
+    let n = n.max(1);
+    let mut days = Vec::new();
+    if variant < 108 {
+        let n = n.min(2000);
+        let (pos, shape, hours, sep) = (variant % 3, (variant / 3) % 4, (variant / 12) % 3, (variant / 36) % 3);
+        let p = [n / 2, 0, n - 1][pos as usize];
+        let years: Vec<String> = (0..n).map(|i| format!("{}-{}", 1904 + 4 * i, 1905 + 4 * i)).collect();
+        let y = 1904 + 4 * p as i32;
+        let (a, b) = [(y + 1, y + 2), (y, y + 2), (y + 1, y + 9), (y + 2, y + 3)][shape as usize];
+        let second = ["10:00-12:00", "11:00-13:00 unknown", "14:00-16:00"][hours as usize];
+        let text = format!("{} 10:00-12:00{}{a}-{} {second}", years.join(","), [", ", " ; ", " || "][sep as usize], b.min(9999));
+        for yy in (y - 5)..=(y + 11) {
+            for (m, d) in [(1, 1), (6, 15), (12, 31)] {
+                if let Some(x) = NaiveDate::from_ymd_opt(yy, m, d) {
+                    days.push(x);
+                }
+            }
+        }
+        for yy in [1904, 1905, 1906, 1904 + 4 * (n as i32 - 1), 1905 + 4 * (n as i32 - 1), 1906 + 4 * (n as i32 - 1), 1904 + 4 * 32, 1905 + 4 * 32, 1906 + 4 * 32] {
+            if let Some(x) = NaiveDate::from_ymd_opt(yy, 3, 3) {
+                days.push(x);
+            }
+        }
+        (text, days)
+    } else {
+        let v = variant - 108;
+        let n = n.min(350);
+        let (pos, shape, sep) = (v % 2, (v / 2) % 3, (v / 6) % 2);
+        let p = [n / 2, n - 1][pos as usize] as u32;
+        let hm = |m: u32| format!("{:02}:{:02}", m / 60, m % 60);
+        let spans: Vec<String> = (0..n as u32).map(|i| format!("{}-{}", hm(4 * i), hm(4 * i + 2))).collect();
+        let (a, b) = [(4 * p + 1, 4 * p + 3), (4 * p, 4 * p + 3), (4 * p + 1, 4 * p + 11)][shape as usize];
+        let text = format!("Mo {}{}Mo {}-{} unknown", spans.join(","), [", ", " ; "][sep as usize], hm(a), hm(b.min(1440)));
+        let mut d = NaiveDate::from_ymd_opt(2024, 1, 1).unwrap();
+        while d.weekday() != Weekday::Mon {
+            d = d.succ_opt().unwrap();
+        }
+        for k in -1..=8 {
+            days.push(d + Duration::days(k));
+        }
+        (text, days)
+    }
+}
+
+pub fn check_wide_list(n: usize, variant: u64) -> Result<usize, String> {
+    let (text, mut days) = wide_list_text(n, variant);
+    let oh = build(&text, &HolSpec::None).ok_or_else(|| format!("wide list ({n} ranges, variant {variant}) rejected by OpeningHours::parse: {}", &text[text.len().saturating_sub(80)..]))?;
+    let norm = guarded(|| oh.normalize()).map_err(|p| format!("normalize panicked on a wide list of {n} ranges (variant {variant}): {p}"))?;
+    days.retain(|d| dates::in_range(*d) && *d != dates::min_day());
+    days.sort();
+    days.dedup();
+    if let Some((_, diff)) = evalcmp::first_difference(&oh, &norm, &days, false)? {
+        let nf = norm.to_string();
+        return Err(format!("one rule with {n} disjoint ranges in one selector and a second rule (variant {variant}; input ends with {:?}): the normal form (ends with {:?}) evaluates differently {diff} (original vs normalized)", &text[text.len().saturating_sub(60)..], &nf[nf.len().saturating_sub(70)..]));
+    }
+    Ok(days.len())
+}
+
+pub fn wide_ladder(thorough: bool) -> Vec<(usize, u64)> {
+    let mut v = Vec::new();
+    let mut ns: Vec<usize> = (1..=40).collect();
+    for e in 6..=(if thorough { 10 } else { 8 }) {
+        ns.extend([(1usize << e) - 1, 1 << e, (1 << e) + 1]);
+    }
+    for n in ns {
+        for variant in 0..WIDE_VARIANTS {
+            // beyond 40 ranges: the twelve variants of each dimension that differ in position and shape
+            if n > 40 && !(variant < 12 || (36..48).contains(&variant) || variant >= 108) {
+                continue;
+            }
+            v.push((n, variant));
+        }
+    }
+    v
+}
+
+fn wide_lists(args: &Args, rep: &mut Report) {
+    for (i, (n, variant)) in wide_ladder(args.thorough()).into_iter().enumerate() {
+        if (i as u64) % args.of.max(1) != args.worker || rep.full() {
+            continue;
+        }
+        rep.evaluations += 1;
+        rep.begin(&format!("wide list: n = {n}, variant {variant}"));
+        match check_wide_list(n, variant) {
+            Ok(_) => {
+                rep.count("wide_list_expressions");
+                rep.max("wide_list_max_ranges", n as u64);
+            }
+            Err(msg) => rep.violation("normalization_changes_meaning", msg, json!({"wide_list": n, "variant": variant}), None),
+        }
+    }
+}
+
 fn many_rules(args: &Args, rep: &mut Report) {
     let mut ks: Vec<usize> = (1..=64).collect();
     for e in 7..=12 {
@@ -166,6 +269,10 @@ fn many_rules(args: &Args, rep: &mut Report) {
 
 pub fn run(args: &Args, rep: &mut Report) {
     many_rules(args, rep);
+    if rep.full() {
+        return;
+    }
+    wide_lists(args, rep);
     if rep.full() {
         return;
     }
@@ -284,6 +391,13 @@ pub fn run(args: &Args, rep: &mut Report) {
 }
 
 pub fn replay(args: &Args, case: &Value, rep: &mut Report) {
+    if let Some(n) = case["wide_list"].as_u64() {
+        rep.evaluations += 1;
+        if let Err(msg) = check_wide_list(n as usize, case["variant"].as_u64().unwrap_or(0)) {
+            rep.violation("normalization_changes_meaning", msg, case.clone(), None);
+        }
+        return;
+    }
     if let Some(k) = case["many_rules"].as_u64() {
         rep.evaluations += 1;
         if let Err(msg) = check_many_rules(k as usize, case["variant"].as_u64().unwrap_or(0)) {
